@@ -77,9 +77,9 @@ func entityKey(api string) keys.Key {
 //     youngest change per tuple (bulk tuples are alike), each "out" once outside the window. With at most one
 //     bulk write per history the entries a later write pushes off the page are bulk entries of one age.
 //   - the present tuples as a set (no key matches two tuples, so insertion order never shows).
-//   - query configuration: no iterator entries exist; the last write (= the newest change) with its age up to the
-//     longest query TTL, the modelled query entries with their age and whether they are after the newest change
-//     and after the cached LastModified (the two values an invalidation time can take before the next write).
+//   - query configuration: no iterator entries exist and nobody reads invalidation entries; the query entries of
+//     the real CachedCheckResolver with their age, answer and whether their LastModified is after the newest
+//     change and after the cached LastModified (the two values an invalidation time can take before the next write).
 //   - monitors: "a run that started after the last write has completed", the contents each key ever held.
 func (w *world) canon() string {
 	if exactCanon {
@@ -208,19 +208,19 @@ func (w *world) canonReduced() string {
 		fmt.Fprintf(&b, "%s%q;", a, vs)
 	}
 	if query {
-		if w.haveWrite {
-			fmt.Fprintf(&b, "|lw=%s", age(w.lastWrite, w.cfg.maxTTL(QueryTTL)))
-		}
 		for k := 0; k < 2; k++ {
-			q := w.qm[k]
-			if q == nil || !now.Before(q.lm.Add(q.ttl)) {
+			e, q := w.qentry(k)
+			if q == nil {
 				continue
 			}
-			fmt.Fprintf(&b, "|q%d=%q@%s/%v", k, q.val, age(q.lm, q.ttl), q.ttl)
-			if w.haveWrite && q.lm.After(w.lastWrite) {
+			fmt.Fprintf(&b, "|q%d=%v@%s/%v", k, q.CheckResponse.GetAllowed(), age(e.setAt, e.ttl), e.ttl)
+			if !q.LastModified.Equal(e.setAt) {
+				fmt.Fprintf(&b, "(lm%+d)", q.LastModified.Sub(e.setAt))
+			}
+			if w.haveWrite && q.LastModified.After(w.lastWrite) {
 				b.WriteString(" >lw")
 			}
-			if cle != nil && q.lm.After(cle.LastModified) {
+			if cle != nil && q.LastModified.After(cle.LastModified) {
 				b.WriteString(" >cl")
 			}
 		}
